@@ -17,6 +17,12 @@ every mask form the constructor accepts, kernel_size / strides / dilation_rate /
 int, tuple and list, list-valued quantizer options, array-valued post_training_scale / alpha).  The
 cases are branches of a few multi-input models (one set of routes per model); when a route fails,
 every branch is re-run as a model of its own so that the violation names the concrete failing layer.
+
+Strengthening round (seeds C13-7 / C13-8): stream `array-args:shared` — ONE quantizer object in several
+quantizer slots of one layer (every class with >= 2 slots) and of two layers, tied to the model's heap
+semantics (driver op `shared`) and judged by the three-route oracle (get_quantizers() strings!); tie
+`reported-quantizers` on every layer of every stream; stream `sigmoid-mode` — build under
+set_internal_sigmoid(A), switch to B, routes, compare original and copies under B and back under A.
 """
 import fractions
 import json
@@ -232,6 +238,14 @@ def lj2_exc(layer):
   except Exception as e:  # pylint: disable=broad-except
     return e
   return RuntimeError("get_config raised once and not the second time")
+
+
+def qj_short(j):
+  """protocol QVal -> short text (class and the arguments that are not None / False)"""
+  if not isinstance(j, dict) or "obj" not in j:
+    return j
+  return "%s(%s)" % (j["obj"]["cls"], ", ".join(
+      "%s=%s" % (k, dec_pv(v)) for k, v in j["obj"]["args"] if v is not None and v is not False))
 
 
 def qstr(q):
@@ -895,6 +909,321 @@ def keras_name_branches(rng, tier):
   return [((5,),), ((5, 5, 2),), ((3, 4),)], out, colliding
 
 
+RECURRENT = ("QSimpleRNN", "QLSTM", "QGRU")
+SHARED_INPUT = {"QDense": 0, "QScaleShift": 0, "QBatchNormalization": 0, "QConv1D": 3, "QSeparableConv1D": 3,
+                "QSimpleRNN": 2, "QLSTM": 2, "QGRU": 2, "QSimpleRNNCell": 2, "QLSTMCell": 2, "QGRUCell": 2}
+
+
+def shared_role_branches(rng, tier, specs, qparams, trainable_classes):
+  """histories on one quantizer OBJECT across ROLES: one object (alpha left at None, so that the
+  layer constructor switches it in place on its trainable slots) passed for several quantizer slots
+  of ONE layer — every layer class of the model's tables with at least two quantizer slots: all
+  slots at once, a trainable and a non-trainable slot, for the recurrent classes every pair
+  kernel/recurrent x bias/state — and for slots of TWO layers in both orders (bias of the first,
+  kernel of the second: the first layer's object is switched after the layer was constructed).
+  The original holds one object for the shared slots, every rebuilt model one fresh object per slot:
+  predictions and get_quantizers() strings must agree.  Every constructor run is also sent to the
+  model (driver op `shared`: heap before, slot -> object) and compared with the live
+  `*_quantizer_internal` attributes and the live `get_quantizers()` right after construction."""
+  import tensorflow as tf
+  import qkeras as Q
+  out = []
+  def qmake(cls_name):
+    return getattr(Q, cls_name)(*[int(a) for a in QUANTIZER_ARGS.get(cls_name, "").split(",") if a])
+  def other(slot):
+    return Q.quantized_bits(6, 1, 1, alpha=1.0) if slot.startswith("state") else Q.quantized_bits(4, 0, 1, alpha=1.0)
+  def qslots_of(cls_name):
+    ps = [p for p in specs[cls_name]["params"] if p["kind"]["k"] == "quant"]
+    return [p["name"] for p in ps], [p["name"] for p in ps if p["kind"].get("t")]
+  def construct(cls_name, shared, q, name, ties, extra=None):
+    """build `cls_name` with the object `q` in the slots `shared`, fresh objects elsewhere"""
+    qslots, _ = qslots_of(cls_name)
+    kw = dict(T.SAMPLE_ARGS[cls_name])
+    kw.update(extra or {})
+    objs, refs = [], []
+    for sl in qslots:
+      o = q if sl in shared else (None if sl == "inverse_quantizer" else other(sl))
+      kw[sl] = o
+      if o is not None:
+        idx = next((i for i, z in enumerate(objs) if z is o), None)
+        if idx is None:
+          objs.append(o)
+          idx = len(objs) - 1
+        refs.append([sl, idx])
+    heap = [quant_json(o, qparams)["obj"] for o in objs]       # the objects as the user built them
+    layer = getattr(Q, cls_name)(name=name, **kw)
+    holder = getattr(layer, "cell", layer)
+    ties.append(dict(cls=cls_name, heap=heap, refs=refs,
+                     slots=[[sl, quant_json(getattr(holder, sl + "_internal"), qparams)] for sl in qslots],
+                     reported=[quant_json(z, qparams) for z in layer.get_quantizers()]
+                     if hasattr(layer, "get_quantizers") else None))
+    return layer
+  def add(cls_name, shared, qcls, mk, what=None, inp=None):
+    scale = [0.05, 3.0][int(rng.integers(0, 2))]
+    lab = what or "%s(%s = ONE %s(%s) object, alpha left at None) with weights scaled by %g" % (
+        cls_name, " = ".join(shared), qcls, QUANTIZER_ARGS.get(qcls, ""), scale)
+    b = dict(label=lab, cls=cls_name, inp=SHARED_INPUT.get(cls_name, 1) if inp is None else inp, wscale=scale, shared_ties=[],
+             key={"layer": cls_name, "qclass": qcls, "option": "shared-object/" + "+".join(shared)})
+    def make(name, b=b):
+      del b["shared_ties"][:]          # the ties of the latest construction only
+      return mk(name, b["shared_ties"])
+    b["make"] = make
+    out.append(b)
+  draw = lambda: trainable_classes[int(rng.integers(0, len(trainable_classes)))]
+  classes = [c for c in sorted(specs) if len(qslots_of(c)[0]) >= 2 and c not in EXCLUDED
+             and not (c.endswith("Cell") and tier == "quick")]
+  for cls_name in classes:
+    qslots, tr = qslots_of(cls_name)
+    qslots = [sl for sl in qslots if sl != "inverse_quantizer"]
+    fixed = [sl for sl in qslots if sl not in tr]
+    wrap = (lambda l: tf.keras.layers.RNN(l)) if cls_name.endswith("Cell") else (lambda l: l)
+    def one(shared, qcls, cls_name=cls_name, wrap=wrap):
+      add(cls_name, shared, qcls,
+          lambda name, ties: wrap(construct(cls_name, shared, qmake(qcls), name, ties)))
+    recurrent = cls_name in RECURRENT or cls_name.endswith("Cell")
+    qclasses = trainable_classes if tier != "quick" else [draw()]
+    for qcls in qclasses:
+      if tier != "quick" or not recurrent:                      # (a recurrent layer costs ~1 s per construction)
+        one(qslots, qcls)                                       # every slot holds the one object
+    pairs = [(t, f) for t in tr for f in fixed]                 # recurrent: kernel/recurrent x bias/state
+    if not recurrent:
+      pairs = pairs + [(tr[0], tr[1])] if len(tr) > 1 else pairs
+      pairs = [pr for pr in pairs if len(qslots) > 2]
+      if tier == "quick":
+        pairs = pairs if cls_name == "QBatchNormalization" else []
+    if tier == "quick" and pairs:                               # quick: one drawn pair per class, thorough: all
+      pairs = [pairs[int(rng.integers(0, len(pairs)))]]
+    for t, f in pairs:
+      one([t, f], "quantized_bits")
+      if tier != "quick":
+        one([t, f], draw())
+  # the wrapper: Keras' Bidirectional re-creates its two directions from the wrapped layer's config
+  for inner in (RECURRENT if tier != "quick" else []):
+    add("QBidirectional", ["kernel_quantizer", "bias_quantizer"], "quantized_bits",
+        lambda name, ties, inner=inner: Q.QBidirectional(
+            construct(inner, ["kernel_quantizer", "bias_quantizer"], qmake("quantized_bits"), name + "i", ties), name=name),
+        what="QBidirectional(%s(kernel_quantizer = bias_quantizer = ONE quantized_bits(4) object, alpha left at None))" % inner,
+        inp=2)
+  # one object in slots of TWO layers
+  qcls = draw()
+  def bias_then_kernel(name, ties, qcls=qcls):
+    q = qmake(qcls)
+    return Chain([construct("QDense", ["bias_quantizer"], q, name + "a", ties, dict(units=4)),
+                  construct("QDense", ["kernel_quantizer"], q, name + "b", ties, dict(units=3))])
+  add("QDense", ["bias_quantizer@1", "kernel_quantizer@2"], qcls, bias_then_kernel,
+      what="bias-then-kernel: ONE %s object (alpha None) is the bias quantizer of a QDense and then the kernel quantizer "
+           "of the next QDense (switched after the first layer was constructed)" % qcls)
+  def rnn_pair(name, ties):
+    q = qmake("quantized_bits")
+    return Chain([construct("QLSTM", ["kernel_quantizer"], q, name + "a", ties, dict(return_sequences=True)),
+                  construct("QGRU", ["bias_quantizer", "state_quantizer"], q, name + "b", ties)])
+  if tier != "quick":
+    add("QLSTM", ["kernel_quantizer@1", "bias_quantizer@2", "state_quantizer@2"], "quantized_bits", rnn_pair,
+        what="ONE quantized_bits(4) object (alpha None): kernel quantizer of a QLSTM, bias and state quantizer of the QGRU behind it")
+  def conv_pair(name, ties):
+    q = qmake("quantized_bits")
+    return Chain([construct("QConv2D", ["kernel_quantizer"], q, name + "a", ties),
+                  construct("QDepthwiseConv2D", ["bias_quantizer"], q, name + "b", ties)])
+  add("QConv2D", ["kernel_quantizer@1", "bias_quantizer@2"], "quantized_bits", conv_pair,
+      what="ONE quantized_bits(4) object (alpha None): kernel quantizer of a QConv2D, bias quantizer of the QDepthwiseConv2D behind it")
+  return [((5,),), ((5, 5, 2),), ((3, 4),), ((6, 3),)], out
+
+
+SIGMOID_MODES = ("hard", "smooth", "real")
+
+
+def sigmoid_mode_branches(tier, part=0):
+  """layers whose inference evaluates the module-level `_sigmoid` of quantizers.py (switched by
+  `set_internal_sigmoid`): quantized_sigmoid / quantized_tanh (use_real_* off), quantized_relu with
+  use_sigmoid, quantized_ulaw — as QActivation (object and string), as layer activation, as
+  recurrent activation / default activation of the recurrent layers, as state quantizer; plus
+  controls that do not read the switch (use_real_* on, hard_sigmoid function)"""
+  import tensorflow as tf
+  import qkeras as Q
+  qb = lambda: Q.quantized_bits(6, 0, 1, alpha=1.0)
+  rkw = lambda: dict(kernel_quantizer=qb(), recurrent_quantizer=qb(), bias_quantizer=qb(),
+                     state_quantizer=Q.quantized_bits(8, 1, 1, alpha=1.0))
+  out = []
+  def add(inp, lab, mk, reads=True, quick=None):
+    # quick: a recurrent layer costs ~1 s per construction (x 4 per route set); the recurrent branches
+    # are split over the two mode pairs of a quick run (quick = 0 / 1), the rest is thorough only
+    if tier != "quick" or inp != 2 or quick == part % 2:
+      out.append(dict(label=lab, inp=inp, make=mk, reads=reads))
+  for lab, mk in [
+      ("QActivation(quantized_sigmoid(6))", lambda: Q.quantized_sigmoid(6)),
+      ("QActivation('quantized_sigmoid(5)')", lambda: "quantized_sigmoid(5)"),
+      ("QActivation(quantized_sigmoid(4,symmetric=True))", lambda: Q.quantized_sigmoid(4, symmetric=True)),
+      ("QActivation(quantized_tanh(6))", lambda: Q.quantized_tanh(6)),
+      ("QActivation('quantized_tanh(5)')", lambda: "quantized_tanh(5)"),
+      ("QActivation(quantized_tanh(4,symmetric=True))", lambda: Q.quantized_tanh(4, symmetric=True)),
+      ("QActivation(quantized_relu(5,1,use_sigmoid=1))", lambda: Q.quantized_relu(5, 1, use_sigmoid=1)),
+      ("QActivation(quantized_ulaw(5,1,1))", lambda: Q.quantized_ulaw(5, 1, 1)),
+  ]:
+    add(0, lab, lambda name, mk=mk: Q.QActivation(mk(), name=name))
+  add(0, "QActivation(quantized_sigmoid(6,use_real_sigmoid=True)) [control]",
+      lambda name: Q.QActivation(Q.quantized_sigmoid(6, use_real_sigmoid=True), name=name), reads=False)
+  add(0, "QActivation(quantized_tanh(6,use_real_tanh=True)) [control]",
+      lambda name: Q.QActivation(Q.quantized_tanh(6, use_real_tanh=True), name=name), reads=False)
+  def preused(name):
+    q = Q.quantized_sigmoid(6)
+    q(tf.constant([[0.3, -1.2, 2.0]]))        # used stand-alone under the build-time mode first
+    return Q.QActivation(q, name=name)
+  add(0, "QActivation(<quantized_sigmoid(6) object called stand-alone before>)", preused)
+  add(0, "QDense(3, activation='quantized_tanh(6)')",
+      lambda name: Q.QDense(3, kernel_quantizer=qb(), bias_quantizer=qb(), activation="quantized_tanh(6)", name=name))
+  add(0, "QDense(3, activation=quantized_sigmoid(6))",
+      lambda name: Q.QDense(3, kernel_quantizer=qb(), bias_quantizer=qb(), activation=Q.quantized_sigmoid(6), name=name))
+  add(1, "QConv2D(2, (2,2), activation=quantized_tanh(5))",
+      lambda name: Q.QConv2D(2, (2, 2), kernel_quantizer=qb(), activation=Q.quantized_tanh(5), name=name))
+  add(0, "QScaleShift(activation='quantized_sigmoid(6)')",
+      lambda name: Q.QScaleShift(weight_quantizer=qb(), bias_quantizer=qb(), activation="quantized_sigmoid(6)", name=name))
+  add(2, "QLSTM(2) with the default activations (quantized_tanh / hard_sigmoid)", lambda name: Q.QLSTM(2, name=name, **rkw()), quick=0)
+  add(2, "QLSTM(2, activation=quantized_tanh(6), recurrent_activation=quantized_sigmoid(6))",
+      lambda name: Q.QLSTM(2, activation=Q.quantized_tanh(6), recurrent_activation=Q.quantized_sigmoid(6), name=name, **rkw()),
+      quick=1)
+  add(2, "QGRU(2, recurrent_activation='quantized_sigmoid(6)')",
+      lambda name: Q.QGRU(2, recurrent_activation="quantized_sigmoid(6)", name=name, **rkw()), quick=0)
+  add(2, "QSimpleRNN(2) with the default activation (quantized_tanh)", lambda name: Q.QSimpleRNN(2, name=name, **rkw()), quick=1)
+  add(2, "QSimpleRNN(2, activation='quantized_relu(4,1)', state_quantizer=quantized_tanh(6))",
+      lambda name: Q.QSimpleRNN(2, activation="quantized_relu(4,1)", name=name,
+                                **dict(rkw(), state_quantizer=Q.quantized_tanh(6))))
+  add(2, "QBidirectional(QGRU(2)) with the default activations", lambda name: Q.QBidirectional(Q.QGRU(2, **rkw()), name=name))
+  add(2, "RNN(QLSTMCell(2, recurrent_activation=quantized_sigmoid(6)))",
+      lambda name: tf.keras.layers.RNN(Q.QLSTMCell(2, recurrent_activation=Q.quantized_sigmoid(6), **rkw()), name=name))
+  add(0, "QDense(3, kernel_quantizer=stochastic_binary(alpha=1.0,use_real_sigmoid=False)) [control: inference path]",
+      lambda name: Q.QDense(3, kernel_quantizer=Q.stochastic_binary(alpha=1.0, use_real_sigmoid=False), name=name), reads=False)
+  if tier != "quick":
+    add(2, "QGRU(2, reset_after=True) with the default activations", lambda name: Q.QGRU(2, reset_after=True, name=name, **rkw()))
+    add(2, "RNN(QSimpleRNNCell(2))", lambda name: tf.keras.layers.RNN(Q.QSimpleRNNCell(2, **rkw()), name=name))
+    add(1, "QAveragePooling2D(activation=quantized_sigmoid(6))",
+        lambda name: Q.QAveragePooling2D((2, 2), average_quantizer=qb(), activation=Q.quantized_sigmoid(6), name=name))
+  return [(5,), (5, 5, 2), (3, 4)], out
+
+
+def sigmoid_mode_stream(run, rng, tier, scratch):
+  """process-level state: the model is built (and evaluated once) under sigmoid mode A, the switch
+  goes to B, the three routes run under B, then original and copies are evaluated under B and again
+  under A.  Clauses (always comparing under ONE current mode): every copy predicts bit-identically to
+  the original and reports the same quantizers; the original's output under A is the same before and
+  after the excursion to B.  All predictions are eager (a traced predict function keeps the graph of
+  the mode it was traced under — Keras' cache, not the library's state)."""
+  import tensorflow as tf
+  import qkeras as Q
+  from qkeras.utils import clone_model, quantized_model_from_json, load_qmodel
+  L = tf.keras.layers
+  cyc = [("hard", "smooth"), ("smooth", "real"), ("real", "hard")]
+  pairs = [(a, b) for a in SIGMOID_MODES for b in SIGMOID_MODES if a != b] if tier != "quick" else \
+      [cyc[run.seed % 3], cyc[(run.seed + 1) % 3]]
+  shapes, _ = sigmoid_mode_branches(tier)
+  xs = [(rng.normal(0, 1, (4,) + sh) * 2).astype(np.float32) for sh in shapes]
+  xs[0][0] = [-3.0, -0.6, 0.2, 1.4, 5.0]
+  try:
+    for part, (mode_a, mode_b) in enumerate(pairs):
+      _, branches = sigmoid_mode_branches(tier, part)
+      Q.set_internal_sigmoid(mode_a)
+      tf.keras.backend.clear_session()
+      inps = [L.Input(sh, name="sg_in%d" % k) for k, sh in enumerate(shapes)]
+      outs, slices, pos, bad = [], [], 0, []
+      for i, b in enumerate(branches):
+        try:
+          o = L.Flatten(name="sg%02d_flat" % i)(b["make"]("sg%02d" % i)(inps[b["inp"]]))
+        except Exception as e:  # pylint: disable=broad-except
+          bad.append({"label": b["label"], "error": "%s: %s" % (type(e).__name__, str(e)[:160].replace("\n", " "))})
+          continue
+        w = int(o.shape[-1])
+        outs.append(o)
+        slices.append((b, (pos, pos + w)))
+        pos += w
+      if bad:
+        run.count("build_failed", len(bad))
+        run.extra.setdefault("build_failed", []).extend(bad)
+      model = tf.keras.Model(inps, L.Concatenate(name="sg_cat")(outs))
+      randomize_weights(model, rng)
+      model.run_eagerly = True
+      def pred(m):
+        return np.asarray(m.predict(xs, verbose=0))
+      y_a0 = pred(model)
+      label = "built under set_internal_sigmoid(%r), round trip and evaluation under %r: %d branches" % (
+          mode_a, mode_b, len(slices))
+      for b, _ in slices:
+        run.case(("sigmoid-mode", mode_a, mode_b, b["label"]),
+                 sample={"stream": "sigmoid-mode", "built_under": mode_a, "switched_to": mode_b, "model": b["label"]}
+                 if b["label"].startswith("QLSTM(2) with") else None)
+      run.count("sigmoid_mode_%s_to_%s" % (mode_a, mode_b))
+      q0 = quantizer_strings(model)
+      Q.set_internal_sigmoid(mode_b)
+      copies = {}
+      for r in ROUTES:
+        key = {"layer": "packed:sigmoid-mode", "qclass": "process-state",
+               "option": "set_internal_sigmoid:%s->%s" % (mode_a, mode_b), "route": r}
+        try:
+          if r == "json":
+            m2 = quantized_model_from_json(model.to_json())
+            m2.set_weights(model.get_weights())
+          elif r == "clone":
+            m2 = clone_model(model)
+          else:
+            path = os.path.join(scratch, "sg.h5")
+            model.save(path)
+            m2 = load_qmodel(path, compile=False)
+            os.remove(path)
+          m2.run_eagerly = True
+          copies[r] = m2
+        except Exception as e:  # pylint: disable=broad-except
+          run.count("route_%s_raises" % r)
+          run.violate("route", dict(key, failure="raises", exception=type(e).__name__),
+                      {"model": label, "route": r, "exception": type(e).__name__, "message": str(e)[:300].replace("\n", " ")},
+                      mirrored=False)
+      def judge(now, y0, when):
+        for r, m2 in copies.items():
+          key = {"layer": "packed:sigmoid-mode", "qclass": "process-state",
+                 "option": "set_internal_sigmoid:%s->%s" % (mode_a, mode_b), "route": r}
+          y = pred(m2)
+          run.compared += 1
+          differ = [(b, sl) for b, sl in slices if y[..., sl[0]:sl[1]].tobytes() != y0[..., sl[0]:sl[1]].tobytes()]
+          if differ:
+            run.count("sigmoid_mode_predict_differs")
+            b, (lo, hi) = differ[0]
+            row = int(np.argmax(np.any(y[:, lo:hi] != y0[:, lo:hi], axis=1)))
+            run.violate("route", dict(key, failure="predict-differs", evaluated_under=now),
+                        {"model": label, "route": r, "evaluated": when,
+                         "branches_that_differ": [d[0]["label"] for d in differ],
+                         "first_failing_branch": b["label"], "input_row": xs[b["inp"]][row].ravel().tolist(),
+                         "original_output": y0[row, lo:hi].tolist(), "copy_output": y[row, lo:hi].tolist(),
+                         "max_abs_diff": float(np.max(np.abs(y.astype(np.float64) - y0.astype(np.float64)))),
+                         "replay": "set_internal_sigmoid(%r); build the branch model; set_internal_sigmoid(%r); qkeras.utils %s "
+                                   "route; set_internal_sigmoid(%r); compare model(x) of original and copy" % (mode_a, mode_b, r, now)},
+                        mirrored=False)
+          else:
+            run.count("sigmoid_mode_predict_same")
+          q = quantizer_strings(m2)
+          if q != q0:
+            run.violate("route", dict(key, failure="quantizers-differ", evaluated_under=now),
+                        {"model": label, "route": r, "before": q0, "after": q}, mirrored=False)
+      y_b = pred(model)
+      judge(mode_b, y_b, "under %r, right after the routes" % mode_b)
+      Q.set_internal_sigmoid(mode_a)
+      y_a1 = pred(model)
+      judge(mode_a, y_a1, "back under %r" % mode_a)
+      # the original itself: its output is a function of the CURRENT mode only
+      run.compared += 1
+      if y_a1.tobytes() != y_a0.tobytes():
+        differ = [b["label"] for b, sl in slices if y_a1[..., sl[0]:sl[1]].tobytes() != y_a0[..., sl[0]:sl[1]].tobytes()]
+        run.violate("state", {"layer": "packed:sigmoid-mode", "qclass": "process-state",
+                              "option": "set_internal_sigmoid:%s->%s->%s" % (mode_a, mode_b, mode_a),
+                              "failure": "original-changed-by-excursion"},
+                    {"model": label, "branches_that_differ": differ}, mirrored=False)
+      # evidence of non-triviality: which branches actually depend on the switch
+      dep = [b["label"] for b, sl in slices if y_b[..., sl[0]:sl[1]].tobytes() != y_a0[..., sl[0]:sl[1]].tobytes()]
+      run.count("sigmoid_mode_branches_depending_on_switch", len(dep))
+      run.extra.setdefault("sigmoid_mode_dependent_branches", {})["%s->%s" % (mode_a, mode_b)] = dep
+      stale = [b["label"] for b, sl in slices if b["reads"] and b["label"] not in dep]
+      if stale:
+        run.extra.setdefault("sigmoid_mode_branches_expected_to_depend_but_equal", {})["%s->%s" % (mode_a, mode_b)] = stale
+  finally:
+    Q.set_internal_sigmoid("hard")
+
+
 def native_value_cases():
   """a plain Python value where the library calls a numpy method in get_config: the constructor
   accepts it (`np.array(post_training_scale)`), so every route must serialise and rebuild it.
@@ -1010,6 +1339,7 @@ def static_tie(run, model_tables):
     cmp("static-layer-kinds", name, [(p["name"], p["kind"], p["read"]) for p in a["params"]],
         [(p["name"], p["kind"], p["read"]) for p in b["params"]])
     cmp("static-layer-flags", name, (a["none_is_linear"], a["hook"]), (b["none_is_linear"], b["hook"]))
+    cmp("static-layer-reported-slots", name, a["reports"], b.get("reports"))
   cmp("static-custom-object-table", "keys", live["custom_objects"], model_tables["custom_objects"])
   cmp("static-keras-activation-names", "names", live["keras_activation_names"], model_tables.get("keras_activation_names"))
   # clause oracle on the table itself: inside the custom-object scope custom names win, so a key
@@ -1059,7 +1389,9 @@ def run(run: core.Run, tier: str):
       "lattice (every option but var_name/use_variables) x layer options x random float32 weights/inputs; plus "
       "one fixed model per defect repaired in the fix round (regression stream), one model with a QActivation "
       "branch per quantizer OBJECT carrying non-default options, layers whose non-None-default quantizer / "
-      "activation arguments are explicitly None, and trained-EMA models. "
+      "activation arguments are explicitly None, trained-EMA models, one quantizer OBJECT shared between several "
+      "quantizer slots of one layer / of two layers (every layer class with >= 2 slots), and models built under one "
+      "set_internal_sigmoid mode and round-tripped / evaluated under another. "
       "Per model: 3 routes on the real code (clause oracle), and per library layer: get_config vs "
       "layerGetConfig and reloaded attributes vs layerFromConfig. non-trivial = distinct (layer kind, "
       "quantizer classes, options) combination")
@@ -1085,6 +1417,9 @@ def run(run: core.Run, tier: str):
 
   scratch = tempfile.mkdtemp(prefix="qkv-c13-")
   n_clean = {"quick": 2, "thorough": 8}.get(tier, 2)
+  # quick: ONE model per layer kind — the first draw or the second (bias-less) one, alternating with the
+  # kind and the seed (22 instead of 44 models: the run time went to the shared-roles and sigmoid-mode streams)
+  clean_reps = lambda ki: range(n_clean) if tier != "quick" else [(ki + run.seed) % 2]
   n_dag = {"quick": 4, "thorough": 16}.get(tier, 4)
   pending = []   # (meta, driver line) — the driver is called once at the end
 
@@ -1141,7 +1476,13 @@ def run(run: core.Run, tier: str):
         a1, a2 = dict(map(tuple, [(k, json.dumps(v, sort_keys=True)) for k, v in lj["args"]])), \
                  dict(map(tuple, [(k, json.dumps(v, sort_keys=True)) for k, v in lj2["args"]]))
         reloaded[r] = sorted(k for k in read_of[cls] if a1[k] != a2[k])
-      layers.append(dict(path=path, cls=cls, lj=lj, real_cfg=real_cfg, reloaded=reloaded,
+      try:
+        reported_live = ([quant_json(z, qparams) for z in layer.get_quantizers()]
+                         if hasattr(layer, "get_quantizers") else None)
+      except Exception as e:  # pylint: disable=broad-except
+        real_raises("get_quantizers", key_base, label, path, cls, e)
+        reported_live = None
+      layers.append(dict(path=path, cls=cls, lj=lj, real_cfg=real_cfg, reloaded=reloaded, reported_live=reported_live,
                          cfg_exc=None if cfg_exc is None else
                          {"exception": type(cfg_exc).__name__, "message": str(cfg_exc)[:300].replace("\n", " ")}))
       pending.append((len(models), len(layers) - 1, {"op": "layer", "layer": lj}))
@@ -1201,8 +1542,8 @@ def run(run: core.Run, tier: str):
   models = []
   try:
     # ---------------- stream 1: serialisable options, every layer kind
-    for kind in LAYER_KINDS:
-      for rep in range(n_clean):
+    for ki, kind in enumerate(LAYER_KINDS):
+      for rep in clean_reps(ki):
         tf.keras.backend.clear_session()
         wn, wq = serialisable_quantizers(rng, "weight")
         an, aq = serialisable_quantizers(rng, "act")
@@ -1348,6 +1689,7 @@ def run(run: core.Run, tier: str):
     # ---------------- stream 6: constructor arguments that take an array / tuple / list, at degenerate
     #                  shapes.  Branches of a few packed models; a failing route is re-run per branch.
     mask_ties = []
+    shared_ties = []
     def packed(group, in_shapes, branches):
       def assemble(cands):
         tf.keras.backend.clear_session()
@@ -1410,6 +1752,8 @@ def run(run: core.Run, tier: str):
                  if (b["key"]["option"].startswith(("kernel=1x3", "default-alpha/object/kernel", "hard_sigmoid"))
                      and b["cls"] in ("QConv2D", "keras:Activation")) else None)
         run.count("%s_%s" % (group, b["cls"]))
+        for t in b.get("shared_ties", []):
+          shared_ties.append((b["label"], t))
         if "mask" in b:
           run.count("mask_" + b["key"]["option"].split("mask=")[1].split("/")[0])
           mask_ties.append((b["label"], enc_pv(canon(b["mask"])), canon(layer._mask)))  # pylint: disable=protected-access
@@ -1446,6 +1790,7 @@ def run(run: core.Run, tier: str):
       return shapes, branches
     for group, fn in (("mask", mask_branches), ("tuple", tuple_branches), ("qlist", quantizer_list_branches),
                       ("alpha", lambda r, t: default_alpha_branches(r, t, trainable_classes)),
+                      ("shared", lambda r, t: shared_role_branches(r, t, specs, qparams, trainable_classes)),
                       ("keras", keras_names)):
       in_shapes, branches = fn(rng, tier)
       t0 = _time.time()
@@ -1479,11 +1824,18 @@ def run(run: core.Run, tier: str):
 
     # ---------------- stream 8: a QAdaptiveActivation whose EMA state was trained
     ema_case(run, rng, scratch)
+
+    # ---------------- stream 9: process-level state (set_internal_sigmoid) between construction and the routes
+    t0 = _time.time()
+    sigmoid_mode_stream(run, rng, tier, scratch)
+    stream_wall["sigmoid-mode (build included)"] = round(_time.time() - t0, 1)
   finally:
     shutil.rmtree(scratch, ignore_errors=True)
+    __import__("qkeras").set_internal_sigmoid("hard")
 
   # ---------------- model side, one driver call
-  outs = core.run_driver("C13", [p[2] for p in pending] + [{"op": "mask", "mask": given} for _, given, _ in mask_ties])
+  outs = core.run_driver("C13", [p[2] for p in pending] + [{"op": "mask", "mask": given} for _, given, _ in mask_ties]
+                         + [{"op": "shared", "cls": t["cls"], "heap": t["heap"], "refs": t["refs"]} for _, t in shared_ties])
   by_model = {}
   for (mi, li, _), o in zip(pending, outs):
     by_model.setdefault(mi, {})[li] = o
@@ -1494,6 +1846,28 @@ def run(run: core.Run, tier: str):
     got = dec_pv(o["stored"]) if o.get("ok") else {"err": o.get("err")}
     if got != stored or not (o.get("reread") or {}).get("same"):
       run.disagree("mask-constructor", {"layer": label}, stored, {"stored": got, "reread": o.get("reread")})
+
+  # constructor tie for quantizer objects shared between slots: the state every slot sees after the
+  # constructor ran (live `*_quantizer_internal`) and what get_quantizers() reports (live) vs the
+  # model's heap semantics (constructHeap / slotValue / reportedSlots)
+  for (label, t), o in zip(shared_ties, outs[len(pending) + len(mask_ties):]):
+    canon_q = lambda z: json.dumps(z, sort_keys=True)
+    run.compared += 1
+    live = [[k, canon_q(z)] for k, z in t["slots"]]
+    mod = [[k, canon_q(z)] for k, z in o.get("slots", [])]
+    if live != mod:
+      run.count("shared_constructor_slots_differ")
+      run.disagree("shared-constructor-slots", {"model": label, "class": t["cls"], "refs": t["refs"]},
+                   [[k, qj_short(json.loads(z))] for k, z in live], [[k, qj_short(json.loads(z))] for k, z in mod])
+    if t["reported"] is not None:
+      run.compared += 1
+      lrep = [canon_q(z) for z in t["reported"]]
+      mrep = [canon_q(z) for _, z in o.get("reported", [])]
+      if lrep != mrep:
+        run.count("shared_constructor_reported_differ")
+        run.disagree("shared-constructor-reported", {"model": label, "class": t["cls"], "refs": t["refs"]},
+                     [qj_short(json.loads(z)) for z in lrep], [qj_short(json.loads(z)) for z in mrep])
+    run.count("shared_constructor_tied")
 
   for mi, m in enumerate(models):
     predicted_bad = False      # model says a read argument changes / the rebuild raises
@@ -1523,6 +1897,19 @@ def run(run: core.Run, tier: str):
         diff = sorted(k for k in set(mcfg) | set(lay["real_cfg"]) if mcfg.get(k, "<absent>") != lay["real_cfg"].get(k, "<absent>"))
         run.disagree("get_config", {"model": m["label"], "layer": lay["path"], "class": lay["cls"], "keys": diff},
                      {k: lay["real_cfg"].get(k, "<absent>") for k in diff[:4]}, {k: mcfg.get(k, "<absent>") for k in diff[:4]})
+      # tie 1b: what get_quantizers() reports (live objects, in the live order) vs the model's
+      # reportedQuantizers of the layer read from its `*_internal` attributes
+      if lay.get("reported_live") is not None:
+        run.compared += 1
+        mrep = [json.dumps(a.get("q"), sort_keys=True) for _, a in o.get("reported", [])]
+        lrep = [json.dumps(z, sort_keys=True) for z in lay["reported_live"]]
+        if mrep != lrep:
+          run.count("reported_quantizers_differ_from_used")
+          bad_slots = [o["reported"][i][0] if i < len(o.get("reported", [])) else "#%d" % i
+                       for i in range(max(len(mrep), len(lrep)))
+                       if i >= len(mrep) or i >= len(lrep) or mrep[i] != lrep[i]]
+          run.disagree("reported-quantizers", {"model": m["label"], "layer": lay["path"], "class": lay["cls"], "slots": bad_slots},
+                       [qj_short(json.loads(z)) for z in lrep], [qj_short(json.loads(z)) for z in mrep])
       # tie 2: reload verdict and changed read arguments, per route
       rel = o["reload"]
       route_model = o["route"]
